@@ -322,11 +322,32 @@ func C10(p *load.Prog, r *oblig.Run) {
 		appends := 0
 		var appended []ssa.Value
 		bothNil := true
+		leftThere, rightThere := false, false
+		infeasiblePhi := false
 		for i, b := range path[:len(path)-1] {
 			if iff, ok := b.Instrs[len(b.Instrs)-1].(*ssa.If); ok && i+1 < len(path) {
-				if bo, isBo := iff.Cond.(*ssa.BinOp); isBo && bo.Op == token.NEQ {
+				cond := iff.Cond
+				// a && b kept as a value: the phi takes the value of the edge the path came in on
+				if ph, isPhi := cond.(*ssa.Phi); isPhi && ph.Block() == b && i > 0 {
+					for j, pr := range b.Preds {
+						if pr == path[i-1] {
+							cond = ph.Edges[j]
+						}
+					}
+					if k, isK := cond.(*ssa.Const); isK && k.Value != nil && k.Value.Kind() == constant.Bool {
+						if constant.BoolVal(k.Value) != (path[i+1] == b.Succs[0]) {
+							infeasiblePhi = true
+						}
+					}
+				}
+				if bo, isBo := cond.(*ssa.BinOp); isBo && bo.Op == token.NEQ {
 					if k, isK := bo.Y.(*ssa.Const); isK && k.Value == nil && (isField(bo.X, "Left") || isField(bo.X, "Right")) && path[i+1] == b.Succs[0] {
 						bothNil = false
+						if isField(bo.X, "Left") {
+							leftThere = true
+						} else {
+							rightThere = true
+						}
 					}
 				}
 			}
@@ -355,6 +376,9 @@ func C10(p *load.Prog, r *oblig.Run) {
 					}
 				}
 			}
+		}
+		if infeasiblePhi {
+			continue
 		}
 		n++
 		desc := pathDesc(p, path)
@@ -386,6 +410,8 @@ func C10(p *load.Prog, r *oblig.Run) {
 			why := ""
 			for _, v := range appended {
 				switch {
+				case (isField(v, "Left") || isField(v, "Right")) && leftThere && rightThere:
+					ok, why = false, "a comparison that has both a left and a right individual contributes one of them as it is, without MergeNodes: whatever the other side records beyond what was compared (occupations, residences, new family links) is dropped"
 				case isField(v, "Left"), isField(v, "Right"):
 				default:
 					// merged node: type assertion of MergeNodes(left, right, document) result
